@@ -7,9 +7,10 @@
 EXTENDS Distance, ObsBase
 VARIABLES l, nbad
 
+Rep(v) == IF Has(v, "rep") THEN v.rep ELSE 1
 RowOK(v, r) ==
   LET q == v.queries[r.qi]  t == v.targets[r.ti] IN
-  CASE v.measure = "snp" -> r.dist = SnpDist(q, t)
+  CASE v.measure = "snp" -> r.dist = Rep(v) * SnpDist(q, t)
     [] v.measure = "raw" -> IF RawDen(q, t) = 0 THEN (r.nan \/ r.dist = -1)
                             ELSE r.dist = Dec9(RawNum(q, t), RawDen(q, t)) /\ r.dist >= 0 /\ r.dist <= 1000000000
     [] v.measure = "tn93" -> TRUE
@@ -36,7 +37,7 @@ Next == /\ l <= Len(Trace)
              /\ (IF o.vec.measure = "tn93" /\ ~o.obs.panic /\ ~o.obs.timeout /\ bad = {}
                  THEN \A k \in 1..Len(o.obs.rows) :
                         Emit(StatFile, [line |-> l, row |-> k, dtext |-> o.obs.rows[k].dtext,
-                                        st |-> TN93Stats(o.vec.queries[o.obs.rows[k].qi], o.vec.targets[o.obs.rows[k].ti])])
+                                        st |-> ScaleStats(TN93Stats(o.vec.queries[o.obs.rows[k].qi], o.vec.targets[o.obs.rows[k].ti]), Rep(o.vec))])
                  ELSE TRUE)
              /\ nbad' = nbad + Cardinality(bad)
         /\ l' = l + 1
